@@ -351,7 +351,7 @@ func (lm *lexSSAModel) inlinePolicy(root *ssa.Function) func(caller, callee *ssa
 		if callee == lm.readChar || callee == lm.peekChar || callee == root || callee == lm.inside || callee == lm.outer {
 			return false
 		}
-		if callee.Pkg == nil || callee.Pkg != root.Pkg {
+		if pkgOf(callee) == nil || pkgOf(callee) != root.Pkg {
 			return false
 		}
 		if lm.hasLoop[callee] || funcHasLoop(callee) {
